@@ -178,6 +178,27 @@ def oracle_grid(ctx, p, order):
         if tuple(rel.data_shape) != shape or np.shape(rel["alpha"]) != shape:
             found += viol("AurelCore.data_shape = %r, rel['alpha'].shape = %r, grid shape %r"
                           % (tuple(rel.data_shape), np.shape(rel["alpha"]), shape), "data_shape")
+    # the grid's own arrays are not scratch space: a later conversion of OTHER same-shaped points (AurelCore does this
+    # for an off-centre extraction sphere) leaves r/theta/phi, the coordinate arrays and earlier results what they were
+    if min(shape) >= 1:
+        names = ("xarray", "yarray", "zarray", "x", "y", "z", "r", "theta", "phi", "cartesian_coords", "spherical_coords")
+        before = {n: np.array(getattr(fd, n), copy=True) for n in names}
+        with np.errstate(all="ignore"):
+            ra, ta, pa = fd.cartesian_to_spherical(fd.x + 0.25, fd.y - 0.5, fd.z + 1.0)
+            keep = [np.array(v, copy=True) for v in (ra, ta, pa)]
+            xb = fd.spherical_to_cartesian(np.asarray(ra) + 1.0, ta, pa)
+            keepb = [np.array(v, copy=True) for v in xb]
+            fd.cartesian_to_spherical(fd.x - 3.0, fd.y + 2.0, fd.z * 0.5)
+            fd.spherical_to_cartesian(np.asarray(fd.r) * 2.0, fd.theta, fd.phi)
+        for n in names:
+            if not np.array_equal(getattr(fd, n), before[n], equal_nan=True):
+                found += viol("fd.%s changed when other points were converted with cartesian_to_spherical / "
+                              "spherical_to_cartesian" % n, "grid-array-overwritten", attr=n)
+                break
+        if any(not np.array_equal(a, b, equal_nan=True) for a, b in zip((ra, ta, pa), keep)) or \
+                any(not np.array_equal(a, b, equal_nan=True) for a, b in zip(xb, keepb)):
+            found += viol("the arrays returned by an earlier coordinate conversion changed when another conversion "
+                          "was made", "conversion-result-overwritten")
     ctx.count("oracle_grids")
     return found
 
